@@ -601,7 +601,7 @@ def df_direct_failure(case, workdir, shrink=True):
 def e2e_paths(ctx):
     """fixed input file names (job id = crc32(path) % 10000 must be pairwise distinct within a scenario)"""
     for salt in range(100):
-        d = os.path.join(ctx.work, f"e2e_in{salt}")
+        d = os.path.join(ctx.work, f"e2e_in_{os.getpid()}_{salt}")
         ps = [os.path.join(d, f"rank{r}.json") for r in range(8)]
         if len({zlib.crc32(p.encode()) % 10000 for p in ps}) == 8:
             return d, ps
@@ -640,6 +640,10 @@ def gen_scenario(r, malformed=False):
                 evs.append({"name": f"be{k}", "ph": "B", "pid": pid, "tid": 4, "ts": t, "args": {"uid": uid}})
                 evs.append({"name": f"be{k}", "ph": "E", "pid": pid, "tid": 4, "ts": t + d, "args": {"uid": uid}})
             t += d + r.randrange(4, 40) / 4.0
+        if all(e["name"].endswith("Cmpt Prep") for e in evs):
+            # Prep slices are removed by the prep-queue stage: keep the rank present in the export
+            uid += 1
+            evs.append({"name": "hostx", "ph": "X", "pid": pid, "tid": 3, "ts": t, "dur": 1.0, "args": {"uid": uid}})
         files.append(evs)
     return {"pids": pids, "files": files, "domain": pids == list(range(R)) and R >= 2, "R": R,
             "target": r.choice(["out.json", "out.json", "t.pt.trace.json"])}
@@ -734,6 +738,8 @@ def drive_e2e(ctx, sc, indir, paths, outroot):
             # ground truth: the exported pids must be exactly the generated ranks (and their host pids)
             if ranks_of(case) != set(range(sc["R"])):
                 case["domain"], case["R"] = False, None
+                fail("e2e_exported_ranks_differ_from_input_ranks", sorted(range(sc["R"])), sorted(ranks_of(case)),
+                     config=tag)
         tb_cases.append((case, obs))
         for f in oracle_tb(case, obs, "e2e"):
             f["signature"]["config"] = tag
@@ -838,6 +844,14 @@ def run(ctx):
     outroot = _mkdir(ctx, "e2e_out")
     env = (indir, paths, outroot)
     oracle_failures, mismatches, notes = [], [], []
+    phase_t, t_phase = {}, [time.time()]
+
+    def phase(name):
+        phase_t[name] = round(time.time() - t_phase[0], 1)
+        t_phase[0] = time.time()
+
+    def n_fail(kind):
+        return sum(1 for f in oracle_failures if f["input"]["kind"] == kind)
     dist = {"tb_direct": {"domain": 0, "malformed": {}, "grid": 0, "corpus": 0, "ranks": {}, "with_m1": 0,
                           "save_false": 0, "odd_target": 0, "duplicates": 0},
             "df_direct": {"cases": 0, "malformed": 0, "slices": 0, "non_slices": 0},
@@ -855,13 +869,24 @@ def run(ctx):
             tb_cases.append(gen_tb_domain(r, big=x < 0.06) if x < 0.75 else gen_tb_malformed(r))
         tb_terms, tb_obs = [], []
         seen_nt = set()
-        for c in tb_cases:
+        t_stream, n_bad = time.time(), 0
+        for ci, c in enumerate(tb_cases):
+            if n_bad >= 60 or time.time() - t_stream > ctx.pick(150, 900):
+                notes.append(f"tb_direct stream stopped after {ci} of {len(tb_cases)} cases "
+                             f"({n_bad} failing cases, {time.time() - t_stream:.0f}s)")
+                tb_cases = tb_cases[:ci]
+                break
             obs = drive_tb(c, wd)
             tb_obs.append(obs)
             tb_terms.append((coq_tb_case(c), enc.V(obs)))
-            for f in oracle_tb(c, obs, "direct"):
-                if len(oracle_failures) < 40:
-                    oracle_failures.append({"input": {"kind": "tb_direct", "case": c}, **f})
+            ofs = oracle_tb(c, obs, "direct")
+            n_bad += int(bool(ofs))
+            for f in ofs:
+                if n_fail("tb_direct") < 15:
+                    # the case exported just before is kept as history: state left over between exporter
+                    # instances shows only in a sequence
+                    oracle_failures.append({"input": {"kind": "tb_direct", "case": c,
+                                                      "history": tb_cases[ci - 1:ci] if ci else []}, **f})
             rk = ranks_of(c)
             if len(rk) >= 2:
                 seen_nt.add(("tb", json.dumps([c["events"], c["devices"], c["save"], c["target"]])))
@@ -875,26 +900,35 @@ def run(ctx):
             d["save_false"] += int(not c["save"])
             d["odd_target"] += int(c["target"] not in TARGETS_PLAIN)
             d["duplicates"] += int(len({u for u, _ in c["events"]}) < len(c["events"]))
+        phase("tb_direct_drive")
         # ---------------------------------------------------------------- e2e
         scs = [c["scenario"] for c in corpus if c.get("kind") == "e2e"]
-        for _ in range(ctx.pick(120, 1500)):
+        for _ in range(ctx.pick(150, 1500)):
             scs.append(gen_scenario(r, malformed=r.random() < 0.15))
         e2e_cases = []
-        for sc in scs:
+        t_stream, n_bad = time.time(), 0
+        for si, sc in enumerate(scs):
+            if n_bad >= 40 or time.time() - t_stream > ctx.pick(150, 900):
+                notes.append(f"e2e stream stopped after {si} of {len(scs)} scenarios "
+                             f"({n_bad} failing scenarios, {time.time() - t_stream:.0f}s)")
+                scs = scs[:si]
+                break
             cases, fs, nx = drive_e2e(ctx, sc, indir, paths, outroot)
+            n_bad += int(bool(fs))
             dist["e2e"]["scenarios"] += 1
             dist["e2e"]["runs"] += 6
             dist["e2e"]["exported_slices"] += nx
             dist["e2e"]["ranks"][sc["R"]] = dist["e2e"]["ranks"].get(sc["R"], 0) + 1
             dist["e2e"]["malformed"] += int(not sc["domain"])
             for f in fs:
-                if len(oracle_failures) < 40:
+                if n_fail("e2e") < 15:
                     oracle_failures.append({"input": {"kind": "e2e", "scenario": sc}, **f})
             for c, obs in cases:
                 e2e_cases.append((c, sc))
                 tb_terms.append((coq_tb_case(c), enc.V(obs)))
                 if len(ranks_of(c)) >= 2:
                     seen_nt.add(("e2e", json.dumps([sc["files"], c["save"], c["target"]])))
+        phase("e2e_drive")
         n_direct = len(tb_cases)
         bad, extras, secs = coqrun.run_cases(
             "C18_tb", "From AiuModel Require Import Export.", "(((list tbev * list tbev) * bool) * string)", "tb_val",
@@ -910,12 +944,18 @@ def run(ctx):
         ties = [{"name": "Export.tb_val = TensorBoardFileTraceExporter (direct drive + end to end)",
                  "cases": len(tb_terms), "direct": n_direct, "e2e": len(tb_terms) - n_direct,
                  "mismatching": len(bad), "coq_seconds": round(secs, 1), "nontrivial_in_coq": extras.get("nt")}]
+        phase("coq_tb")
         # ---------------------------------------------------------------- DF direct
         df_cases = [c["case"] for c in corpus if c.get("kind") == "df_direct"]
         for _ in range(ctx.pick(600, 6000)):
             df_cases.append(gen_df_case(r, malformed=r.random() < 0.15))
         df_terms = []
-        for c in df_cases:
+        t_stream = time.time()
+        for ci, c in enumerate(df_cases):
+            if n_fail("df_direct") >= 15 and ci > 100 or time.time() - t_stream > ctx.pick(120, 600):
+                notes.append(f"df_direct stream stopped after {ci} of {len(df_cases)} cases")
+                df_cases = df_cases[:ci]
+                break
             obs, jx = drive_df(c, wd)
             df_terms.append((coq_df_case(c), enc.V(obs)))
             if not c.get("malformed") or True:
@@ -923,7 +963,7 @@ def run(ctx):
                 if isinstance(obs, enc.Err) or isinstance(obs[0], enc.Err) or oracle_df_rows(obs[0], jx, "direct") \
                         or obs[1] != c["save"]:
                     f = df_direct_failure(c, wd, shrink=False)
-                if f and len(oracle_failures) < 40:
+                if f and n_fail("df_direct") < 15:
                     oracle_failures.append(f)
             d = dist["df_direct"]
             d["cases"] += 1
@@ -933,6 +973,7 @@ def run(ctx):
             if sum(1 for e in c["events"] if e["k"] == "X") >= 1 and len({e["args"].get("rank", 0) for e in c["events"]
                                                                          if e["k"] == "X"}) >= 2:
                 seen_nt.add(("df", json.dumps(c["events"], sort_keys=True)))
+        phase("df_direct_drive")
         bad2, _, secs2 = coqrun.run_cases(
             "C18_df", "From AiuModel Require Import Export.", "(list tvev * bool)", "df_val", df_terms)
         for j in bad2[:4]:
@@ -940,8 +981,11 @@ def run(ctx):
                                "case": df_cases[j], "impl": df_terms[j][1][:600]})
         ties.append({"name": "Export.df_val = DataframeExporter.get_data() rows", "cases": len(df_terms),
                      "mismatching": len(bad2), "coq_seconds": round(secs2, 1)})
+        phase("coq_df")
         # ---------------------------------------------------------------- shrink what the oracle found
         shrunk, kinds = [], set()
+        order = {"tb_direct": 0, "df_direct": 1, "e2e": 2}
+        oracle_failures.sort(key=lambda f: order[f["input"]["kind"]])      # smallest replays first
         for f in oracle_failures:
             k = (f["input"]["kind"], json.dumps(f["signature"], sort_keys=True))
             if k in kinds or len(shrunk) >= 4:
@@ -950,6 +994,8 @@ def run(ctx):
             try:
                 if f["input"]["kind"] == "tb_direct":
                     g = tb_direct_failure(f["input"]["case"], wd)
+                    if g:
+                        g["input"]["history"] = f["input"].get("history", [])
                 elif f["input"]["kind"] == "df_direct":
                     g = df_direct_failure(f["input"]["case"], wd)
                 else:
@@ -959,8 +1005,9 @@ def run(ctx):
                 g = None
             shrunk.append(g or f)
         # direct-drive failures first: they are the smallest replays
-        order = {"tb_direct": 0, "df_direct": 1, "e2e": 2}
         shrunk.sort(key=lambda f: order[f["input"]["kind"]])
+        phase("shrink")
+        notes.append("seconds per phase: " + json.dumps(phase_t))
         n_tb_nt = len([1 for k in seen_nt if k[0] in ("tb", "e2e")])
         return {
             "evaluations": len(tb_terms) + len(df_terms) + 4 * len(scs),
@@ -1028,6 +1075,13 @@ def replay(ctx, payload):
     try:
         if inp["kind"] == "tb_direct":
             g = tb_direct_failure(inp["case"], wd, shrink=False)
+            if g is None and inp.get("history"):
+                # not failing on its own: replay it after the export that preceded it in the failing run
+                for h in inp["history"]:
+                    drive_tb(h, wd)
+                g = tb_direct_failure(inp["case"], wd, shrink=False)
+                if g:
+                    g["signature"] = dict(g["signature"], needs_history=True)
         elif inp["kind"] == "df_direct":
             g = df_direct_failure(inp["case"], wd, shrink=False)
         else:
